@@ -58,10 +58,11 @@ theorem keys_amod {α} (k : String) (create : Bool) (f : α → α) (d : α) (l 
     simp only [Function.comp]
     split <;> rfl
   · have hany' : l.any (·.1 == k) = false := Bool.eq_false_iff.mpr hany
-    simp only [hany', Bool.false_eq_true, if_false]
     cases create
-    · left; rfl
-    · right; exact ⟨rfl, by simp⟩
+    · left; simp only [hany', Bool.false_eq_true, if_false]
+    · right
+      refine ⟨hany', ?_⟩
+      simp only [hany', Bool.false_eq_true, if_false, if_true, List.map_append, List.map_cons, List.map_nil]
 
 theorem keysNodup_amod {α} (k : String) (create : Bool) (f : α → α) (d : α) (l : List (String × α))
     (h : KeysNodup l) : KeysNodup (amod k create f d l) := by
